@@ -14,7 +14,7 @@ from . import c14
 EXPLANATION = (
     "C02.1/2: for both signal classes and every (domain in w/f/t) x (shift) x (noise present/absent) combination the value forms of the "
     "result of __call__ are [fftshift](fft(x, last axis)) for w/f and [ifftshift](ifft(x, last axis)) for t, applied identically to signal "
-    "and noise; any other domain raises ValueError. C02.3: shift-state typestate over value forms (time | freq-natural | freq-centred): "
+    "and noise. C02.3: shift-state typestate over value forms (time | freq-natural | freq-centred): "
     "fft/fftfreq/x('w') are natural, fftshift(natural)/w(shift=True) centred, ifftshift(centred) natural; element-wise products and sums "
     "need equal tags, ifft needs a natural operand, and what DM/LPF/FBG return under retH is centred - checked at every ifft call and "
     "retH return of DM, FIBER, FBG, LPF. C02.4: w() = 2*pi*fftfreq(len)*gv.fs read at call time, fftshift-ed on request. C02.5: no "
@@ -84,7 +84,7 @@ def rule_call_table(ctx):
                           f"noise is not transformed like the signal (expected {wn!r})")
         it = Interp(pkg, self_class=cls, assumptions={"domain": "x", "shift": False, "self.noise": "none"})
         outs = it.run(m)
-        ctx.check("C02.1", bool(outs) and all(o.kind == "raise" for o in outs) and outs[0].exc == "ValueError", m, m.node, f"{cls}(<other domain>)", "raises ValueError", "an unknown domain does not raise ValueError")
+        pass  # (clause removed: the property statement has no error clause - 'any other domain raises ValueError' was read off the docstring)
 
 
 # ----------------------------------------------------------------------------- typestate
@@ -309,7 +309,7 @@ def run(ctx):
     for r in ctx.results[n0:]:
         r.rule = "C02.5"
     ctx.counts["C02.5"] = ctx.counts.pop("C14.2", 0)
-    ctx.require_min("C02.1", 26)
+    ctx.require_min("C02.1", 24)
     ctx.require_min("C02.2", 24)
     ctx.require_min("C02.3", 8)
     ctx.require_min("C02.4", 4)
